@@ -17,3 +17,33 @@ M('line_tail_drop', 'C15', 'line.unframe does not deliver the unterminated last 
   'rxsci/framing/line.py', "                if len(acc) > 0:\n                    observer.on_next(acc)\n", "")
 M('line_acc_reset', 'C15', 'line.unframe loses the carry when a chunk holds no newline',
   'rxsci/framing/line.py', "                acc = lines[-1] or ''", "                acc = lines[-1] if len(lines) > 1 else ''")
+
+# ---- C03 / C05 / C06 (protocol and windows)
+M('roll_no_full_complete', ['C03', 'C05'], 'roll never completes full windows (only at key completion)',
+  'rxsci/data/roll.py', """                                i.store.set_state(state_w, (index, i.key), -1)
+                                observer.on_next(rs.OnCompletedMux((index, i.key), i.store))""",
+  """                                pass""")
+M('split_no_final_complete', ['C03', 'C06'], 'split does not close the last segment when the key completes',
+  'rxsci/data/split.py', """                elif isinstance(i, rs.OnCompletedMux):
+                    current_predicate = i.store.get_state(state, i.key)
+                    if current_predicate is not rs.state.markers.STATE_NOTSET:
+                        observer.on_next(i._replace(key=(i.key[0], i.key)))""",
+  """                elif isinstance(i, rs.OnCompletedMux):
+                    current_predicate = i.store.get_state(state, i.key)""")
+M('tee_complete_first_branch', ['C03', 'C08'], 'tee_map forwards OnCompletedMux when the FIRST branch completes (later branches emit after the key is complete)',
+  'rxsci/operators/tee_map.py', "            elif isinstance(x, rs.OnCompletedMux):\n                if i == n-1:", "            elif isinstance(x, rs.OnCompletedMux):\n                if i == 0:")
+M('time_split_double_complete', 'C03', 'time_split completes the window of a key that received no item',
+  'rxsci/data/time_split.py', """                    start_timestamp = i.store.get_state(state_start, i.key)
+                    if start_timestamp is not rs.state.markers.STATE_NOTSET:
+                        observer.on_next(i._replace(key=(i.key[0], i.key)))
+                    i.store.del_key(state_start, i.key)""", """                    observer.on_next(i._replace(key=(i.key[0], i.key)))
+                    i.store.del_key(state_start, i.key)""")
+M('group_by_no_flush', ['C03', 'C04'], 'group_by does not complete its groups when the parent key completes',
+  'rxsci/operators/group_by.py', """                elif type(i) is rs.OnCompletedMux:
+                    for k in i.store.iterate_map(state, i.key):
+                        index = i.store.get_map(state, i.key, k)
+                        observer.on_next(i._replace(key=(index, i.key)))
+                        i.store.del_map(state, i.key, k)""", """                elif type(i) is rs.OnCompletedMux:
+                    for k in i.store.iterate_map(state, i.key):
+                        index = i.store.get_map(state, i.key, k)
+                        i.store.del_map(state, i.key, k)""")
